@@ -11,7 +11,7 @@
    first two v0 statements and the first v1 statement are false (see the harness's directed
    cases and /verif/fixes). *)
 From Coq Require Import List ZArith NArith Bool Lia.
-From TM Require Import Common.Hex C12.Model C12.Proofs.
+From TM Require Import Common.Hex C12.Model C12.Proofs C12.GasInt64 C12.GasProofs.
 Import ListNotations.
 Open Scope Z_scope.
 
@@ -283,3 +283,59 @@ Example C12_v1_nonvacuous :
   pool1 (update1 ex_cfg1 ex_s1' 1 0 [(tb, 0)] None None [(td, ex_ok 0)]) = [td] /\
   pool1 (update1 ex_cfg1 ex_s1' 3 0 [] None None [(tb, ex_ok 0); (td, ex_ok 0)]) = [].
 Proof. vm_compute. repeat split; reflexivity. Qed.
+
+(* ------------------------------------------------------------------ F94: gas accounting in
+   int64.  The model above sums GasWanted in Z; the code sums in int64.  With the repair
+   (compare before adding: gasWanted > 0 && totalGas > maxGas-gasWanted) the int64 loops of
+   both mempools return exactly what the Z-valued reap returns, for every pool, every int64
+   maxGas/maxBytes and all int64 GasWanted values — so C12_v0/v1_reap_is_bounded_prefix
+   ("within the gas limit", sums over Z) are statements about the repaired code.  The only
+   hypothesis is that the mathematical running total does not fall below -2^63, which holds
+   whenever no GasWanted is negative (C12_reap_gas_nonneg_no_underflow). *)
+
+Theorem C12_reap_gas_no_overflow_v0 : forall (s : state0) (mb mg : Z),
+  is_int64 mg -> Forall (fun m => is_int64 (m_gas m)) (s_txs s) -> no_underflow m_gas 0 (s_txs s) ->
+  reap0_gas_checked m_tx m_gas mb mg 0 0 (s_txs s) = reap_max_bytes_gas0 s mb mg.
+Proof. exact (fun s mb mg => reap0_checked_eq m_tx m_gas mb mg (s_txs s)). Qed.
+Print Assumptions C12_reap_gas_no_overflow_v0.
+
+Theorem C12_reap_gas_no_overflow_v1 : forall (s : state1) (mb mg : Z),
+  is_int64 mg -> Forall (fun w => is_int64 (w_gas w)) (order1 s) -> no_underflow w_gas 0 (order1 s) ->
+  reap1_gas_checked w_tx w_gas mb mg 0 0 (order1 s) = reap_max_bytes_gas1 s mb mg.
+Proof. exact (fun s mb mg => reap1_checked_eq w_tx w_gas mb mg (order1 s)). Qed.
+Print Assumptions C12_reap_gas_no_overflow_v1.
+
+Theorem C12_reap_gas_nonneg_no_underflow : forall {A} (gasof : A -> Z) (l : list A),
+  Forall (fun m => 0 <= gasof m) l -> no_underflow gasof 0 l.
+Proof. exact (fun A gasof l => no_underflow_nonneg gasof l 0 (Z.le_refl 0)). Qed.
+Print Assumptions C12_reap_gas_nonneg_no_underflow.
+
+(* pool gas [10, MaxInt64, 10], maxGas 10 (the F94 witness): the repaired loops stop after the
+   first transaction like the model; the unrepaired ones wrap and return all three *)
+Definition ex_gas0 : list mtx :=
+  [ {| m_tx := ta; m_gas := 10; m_height := 0; m_senders := [] |};
+    {| m_tx := tb; m_gas := max_int64; m_height := 0; m_senders := [] |};
+    {| m_tx := tc; m_gas := 10; m_height := 0; m_senders := [] |} ].
+Definition ex_gas1 : list wtx :=
+  map (fun m => {| w_tx := m_tx m; w_gas := m_gas m; w_prio := 0; w_sender := 0%N; w_stamp := 0;
+                   w_height := 0; w_peers := [] |}) ex_gas0.
+
+Example C12_reap_gas_nonvacuous :
+  is_int64 10 /\ Forall (fun m => is_int64 (m_gas m)) ex_gas0 /\ no_underflow m_gas 0 ex_gas0 /\
+  reap0_gas_checked m_tx m_gas (-1) 10 0 0 ex_gas0 = [ta] /\
+  reap1_gas_checked w_tx w_gas (-1) 10 0 0 ex_gas1 = [ta] /\
+  reap_bytes_gas m_tx m_gas (-1) 10 0 0 ex_gas0 = [ta] /\
+  reap0_gas_checked m_tx m_gas (-1) max_int64 0 0 ex_gas0 = [ta] /\
+  reap0_gas_checked m_tx m_gas (-1) (-1) 0 0 ex_gas0 = [ta; tb; tc].
+Proof.
+  split; [unfold is_int64, two63; lia|]. split.
+  { repeat constructor; cbn; unfold two63, max_int64; lia. }
+  split; [cbn; unfold two63, max_int64; lia|].
+  vm_compute. repeat split; reflexivity.
+Qed.
+
+Example C12_reap_gas_wrapping_refuted :
+  reap0_gas_wrapping m_tx m_gas (-1) 10 0 0 ex_gas0 = [ta; tb; tc] /\
+  reap1_gas_wrapping w_tx w_gas (-1) 10 0 0 ex_gas1 = [ta; tb; tc] /\
+  reap0_gas_wrapping m_tx m_gas (-1) 10 0 0 ex_gas0 <> reap_bytes_gas m_tx m_gas (-1) 10 0 0 ex_gas0.
+Proof. vm_compute. repeat split; try reflexivity. discriminate. Qed.
